@@ -22,6 +22,7 @@ PLACES = {'before': (-5, -2), 'after': (7, 9), 'touching_end': (4, 6), 'touching
 QUICK_WIN = [('scaled', dict(T=3, base='storage', win=(1, 3))), ('structured', dict(T=3, inner_win=(0, 2), outer_win=(1, 3))), ('contract_storage', dict(T=4, win_s=(1, 3), win_c=(0, 3))), ('two_node', dict(T=3, win_t=(1, 2))),
              ('multicommodity', dict(T=4, take=(0, 6), win=(1, 3))), ('plant', dict(T=3, fuel=True, win=(1, 3))),
              ('coarse', dict(T=5, kind='contract', win=(1, 5))), ('contract_storage', dict(T=3, win_s=(-1, 2), win_c=(2, 6))),
+             ('linked', dict(T=4, win_a1=(1, 4))),
              # windows that start / end between grid points
              ('contract_storage', dict(T=4, win_s=(0.5, 2.5), win_c=(1, 3.25))), ('two_node', dict(T=4, win_t=(1.75, 3.5)))]
 THOROUGH_WIN = QUICK_WIN + [('structured', dict(T=3, inner_win=(0, 2), outer_win=(1, 3), inner_win_all=True)),
@@ -350,6 +351,11 @@ def run_window(rec, seed, shape, kw):
         if path.exc is not None:
             if common.is_rejection(path.exc):
                 rec.rejected_paths += 1
+                continue
+            if shape == 'linked' and kw.get('win_a1') is not None and type(path.exc).__name__ == 'IndexError' and known.is_open('KF-C08-linked-window'):
+                # recorded finding: the link rows are written for steps 0..T-1 of the horizon whatever the window of the linked asset
+                rec.known_hits.append(('KF-C08-linked-window', P + '/crash', 'IndexError: %s' % str(path.exc)[:80]))
+                rec.obligations.append(dict(name=P + '/crash', verdict='sat', secs=0, form='crash'))
                 continue
             common.crash_candidate(rec, P + '/crash', path, D, info=dict(kind='window'))
             continue
